@@ -37,7 +37,7 @@ pub struct LcCase {
 
 fn lc_case() -> impl Strategy<Value = LcCase> {
     (
-        proptest::collection::vec(proptest::collection::vec((fraw(), 0u8..5), 0..4), 1..4),
+        proptest::collection::vec(proptest::collection::vec((fraw(), 0u8..5), 0..5), 1..4),
         proptest::collection::vec((0u8..8, fraw(), any::<u8>()).prop_map(|(op, coef, operand)| OpRaw { op, coef, operand }), 1..=12),
         [fraw(), fraw(), fraw(), fraw()],
     )
@@ -64,6 +64,17 @@ fn check_lc(c: &LcCase, ctx: &mut CaseCtx) -> Result<(), Failure> {
         .enumerate()
         .map(|(i, ts)| LinearCombination::new(format!("base{i}"), ts.iter().map(|(cf, t)| (cf.to_f::<Fr>(), term(*t))).collect::<Vec<_>>()))
         .collect();
+    // `new` keeps the meaning of the term list it is given (repeated labels and constants included)
+    for (i, ts) in c.pool.iter().enumerate() {
+        let want: Fr = ts.iter().fold(Fr::zero(), |a, (cf, t)| {
+            a + cf.to_f::<Fr>() * if *t >= 4 { Fr::one() } else { assign[LABELS[*t as usize]] }
+        });
+        let mut seen = BTreeSet::new();
+        ctx.label_if(ts.iter().any(|(_, t)| !seen.insert(*t)), "new:repeated_term_in_the_list");
+        ctx.check(value(&pool[i], &assign) == want && pool[i].label() == &format!("base{i}"), sig(P, "lc", "new", "value_not_preserved"), || {
+            format!("LinearCombination::new on a list of {} terms: the combination's value differs from the sum of the listed terms", ts.len())
+        })?;
+    }
     let mut acc = LinearCombination::<Fr>::empty("acc");
     ctx.check(acc.is_empty() && value(&acc, &assign).is_zero(), sig(P, "lc", "empty", "not_empty"), || "empty() is not empty".into())?;
     let mut shadow = Fr::zero();
